@@ -56,7 +56,9 @@ def pairs(ctx, rng, xr, ops):
     if f32:
         # float32 scaling is exact only up to rounding: rebuild the reference pair from the scaled data
         pass
-    xa = x.assign_coords(dir=(x.dir.values + a) % 360.0)
+    # relabelling with or without wrapping the new labels into [0, 360)
+    wrap = bool(rng.random() < 0.7)
+    xa = x.assign_coords(dir=(x.dir.values + a) % 360.0 if wrap else x.dir.values + a)
     base = {}
     for op in chosen:
         name = op.name
@@ -115,6 +117,19 @@ def pairs(ctx, rng, xr, ops):
                             "rotation-symmetry-broken:" + name)
             except Exception as e:
                 rec.bad("rotation:" + name, key, {"angle": a, "raised": repr(e)[:300], "dir_after": xa.dir.values}, "raises-on-relabelled-directions")
+    # ---- the peak direction of the relabelled spectrum is one of its (possibly unwrapped) labels -------------
+    try:
+        dpa = vals(xa.spec.dp())
+        tha = xa.dir.values.astype("float32").astype("float64")
+        dpa = dpa[~np.isnan(dpa)]
+        okc = np.all(np.min(np.abs(dpa.reshape(-1, 1) - tha.reshape(1, -1)), axis=1) <= 1e-4 * max(1.0, np.abs(tha).max())) if dpa.size else True
+        kk = "%s|nd=%d|relabelled:%s" % (dt, len(th), "wrapped" if wrap else "unwrapped")
+        if okc:
+            rec.ok("dp_is_a_label", kk)
+        else:
+            rec.bad("dp_is_a_label", kk, {"angle": a, "dp": dpa, "labels": xa.dir.values, "wrapped": wrap}, "bound-violated:dp is a coordinate")
+    except Exception as e:
+        rec.bad("dp_is_a_label", dt, {"angle": a, "raised": repr(e)[:300], "labels": xa.dir.values}, "raises-on-relabelled-directions")
     # ---- bounds ---------------------------------------------------------------------------------------
     if not nondeg:
         rec.skip("bounds", "degenerate spectrum (energy in < 2 frequencies or directions)")
